@@ -781,6 +781,18 @@ func (x *Exec) loopArrive(st *State, fr *Frame, lp *loop, head *ssa.BasicBlock, 
 			x.check(st, o, goal)
 		}
 	}
+	if !entering && lc != nil {
+		for _, ens := range lc.Ensures {
+			name := fmt.Sprintf("%s/loop%d.iteration-ensures#%d", fname, lp.ordinal, ens.Ord)
+			o := x.oblig(name, "loop-iteration", x.propsFor(fr, ens), lp.pos, ens.Text)
+			goal, err := x.evalClause(x.loopEnv(st, fr, lp), ens)
+			if err != nil {
+				x.unbound(o, err)
+				continue
+			}
+			x.check(st, o, goal)
+		}
+	}
 	if !entering {
 		if lc != nil && lc.Decreases != nil {
 			name := fmt.Sprintf("%s/loop%d.decreases", fname, lp.ordinal)
@@ -1629,8 +1641,10 @@ func (x *Exec) overflow(st *State, fr *Frame, in *ssa.BinOp, r Int) {
 }
 
 func (x *Exec) equalVals(st *State, a, b Val, t types.Type) (string, bool) {
-	// interface compared with interface: tag+payload equality is faithful only
-	// for payloads with identity boxing; other cases are abstracted by caller.
+	// interface == interface: dynamic type and payload must agree. The payload
+	// comparison is faithful when every implementation of the static interface
+	// type is identity-boxed (pointers, integers, bools, maps, funcs); for other
+	// interfaces (interface{}, error, ...) it is faithful only for such tags.
 	if ia, ok := a.(Iface); ok {
 		if ib, ok := b.(Iface); ok {
 			if ib.Tag == "0" {
@@ -1639,7 +1653,14 @@ func (x *Exec) equalVals(st *State, a, b Val, t types.Type) (string, bool) {
 			if ia.Tag == "0" {
 				return sEq(ib.Tag, "0"), true
 			}
-			return "(and (= " + ia.Tag + " " + ib.Tag + ") (= " + ia.Pay + " " + ib.Pay + ") (identityboxed " + ia.Tag + "))", false
+			eq := "(and (= " + ia.Tag + " " + ib.Tag + ") (= " + ia.Pay + " " + ib.Pay + "))"
+			if x.eng.ifaceAllIdentity(t) {
+				return eq, true
+			}
+			// unknown boxing: equal tag+payload implies equal; otherwise undetermined
+			u := smtSym(x.fresh("ifaceeq", "Bool"))
+			x.note("comparison of interface values of type " + typeKey(t) + ": exact only when both hold identity-boxed values")
+			return "(or " + eq + " (and (= " + ia.Tag + " " + ib.Tag + ") (not (identityboxed " + ia.Tag + ")) " + u + "))", true
 		}
 	}
 	return valEqual(a, b)
